@@ -66,7 +66,7 @@ Lemma clean_mismatch_old : lang_result w_f13 = Some (true, [[49]; [58; 61]])
   /\ syn_result w_f13 = Some (true, [[49]; [58; 61]]).
 Proof. vm_compute. repeat split. Qed.
 
-(* the four ways in which today's lexers split a source differently although it is clean for both *)
+(* the three ways in which today's lexers split a source differently although it is clean for both *)
 Definition w_colon : list N := [49; 54; 58; 70; 70; 58].                          (* 16:FF: *)
 Definition w_merge : list N := [49; 46; 53; 120; 34; 48; 34].                     (* 1.5x, quote, 0, quote *)
 Definition w_psl : list N := ASSUME_G ++ [39; 97; 39].                            (* assume_guarantee'a' *)
@@ -76,15 +76,17 @@ Definition mismatch (s : list N) : Prop :=
 Lemma mismatch_colon : mismatch w_colon
   /\ lexemes_lang w_colon = Some [[49; 54]; [58]; [70; 70]; [58]] /\ lexemes_syn w_colon = Some [w_colon].
 Proof. unfold mismatch. vm_compute. repeat split; discriminate. Qed.
-Lemma mismatch_merge : mismatch w_merge
-  /\ lexemes_lang w_merge = Some [[49; 46; 53]; [120; 34; 48; 34]] /\ lexemes_syn w_merge = Some [w_merge].
-Proof. unfold mismatch. vm_compute. repeat split; discriminate. Qed.
+(* F41, before commit f2c0e80: the real literal was merged into a bit string literal; repaired: agreement *)
+Lemma merge_any_literal_old : lang_result w_merge = Some (true, [[49; 46; 53]; [120; 34; 48; 34]])
+  /\ syn_result_merge_old w_merge = Some (true, [w_merge])
+  /\ syn_result w_merge = Some (true, [[49; 46; 53]; [120; 34; 48; 34]]).
+Proof. vm_compute. repeat split. Qed.
 Lemma mismatch_psl : mismatch w_psl
   /\ lexemes_lang w_psl = Some [ASSUME_G; [39; 97; 39]] /\ lexemes_syn w_psl = Some [ASSUME_G; [39]; [97]; [39]].
 Proof. unfold mismatch. vm_compute. repeat split; discriminate. Qed.
 Lemma mismatch_crlf : mismatch w_crlf
   /\ lexemes_lang w_crlf = Some [[39; 10; 39]] /\ lexemes_syn w_crlf = Some [[39]; [39]].
 Proof. unfold mismatch. vm_compute. repeat split; discriminate. Qed.
-Lemma witnesses_known : known_difference w_colon = true /\ known_difference w_merge = true
+Lemma witnesses_known : known_difference w_colon = true
   /\ known_difference w_psl = true /\ known_difference w_crlf = true.
 Proof. vm_compute. repeat split. Qed.
